@@ -38,9 +38,13 @@ DOCUMENTED = ['application/json', 'application/json-rpc', 'application/jsonreque
 FLOORS = {'*': {**{f'{i}:{t}': 10 for i in INTEGRATIONS for t in DOCUMENTED},
                 **{f'{i}:{t}+params': 10 for i in INTEGRATIONS for t in DOCUMENTED},
                 **{f'{i}:refused-type': 30 for i in INTEGRATIONS}, **{f'{i}:empty-reply': 5 for i in INTEGRATIONS},
-                'status:non-200': 50, 'endpoint:added': 50, 'endpoint:added-sub': 50, 'endpoint:added-bp': 50, 'endpoint:sub-application': 50, 'charset:non-utf8-declared': 30, 'cross-integration-comparisons': 200, 'non-utf8-bodies': 10}}
+                'status:non-200': 50, 'status:without-a-registered-reason-phrase': 30, 'host-application-read-the-body-first': 100, 'endpoint:added': 50, 'endpoint:added-sub': 50, 'endpoint:added-bp': 50, 'endpoint:sub-application': 50, 'charset:non-utf8-declared': 30, 'cross-integration-comparisons': 200, 'non-utf8-bodies': 10}}
 
 STATUS_TABLE = {-32700: 400, -32600: 400, -32601: 404, -32602: 422, -32000: 500, -32603: 500}
+# valid HTTP status codes (three digits, classes 2xx / 4xx / 5xx) that no registry assigns a reason phrase to
+STATUS_UNASSIGNED = {-32700: 499, -32600: 520, -32601: 599, -32602: 299, -32000: 530, -32603: 521}
+# applications built with these status functions also carry a body-reading hook of the hosting application (an audit log)
+AUDITED = ('table', 'unassigned')
 
 
 class StatusFn:
@@ -56,6 +60,8 @@ class StatusFn:
             return 400 if any(codes) else 200
         if self.kind == 'all-errors-400':
             return 400 if all(codes) else 200      # NOT 200 for an empty tuple: the function has no say over an empty reply
+        if self.kind == 'unassigned':
+            return STATUS_UNASSIGNED.get(codes[0], 200 if codes[0] == 0 else 419) if codes else 200
         return STATUS_TABLE.get(codes[0], 200 if codes[0] == 0 else 418) if codes else 200
 
 
@@ -66,6 +72,8 @@ def want_status(kind, codes):
         return 400 if any(codes) else 200
     if kind == 'all-errors-400':
         return 400 if all(codes) else 200
+    if kind == 'unassigned':
+        return STATUS_UNASSIGNED.get(codes[0], 200 if codes[0] == 0 else 419) if codes else 200
     return STATUS_TABLE.get(codes[0], 200 if codes[0] == 0 else 418) if codes else 200
 
 
@@ -89,7 +97,15 @@ class App:
         self.paths = {'root': root.rstrip('/')}
         if integration == 'aiohttp':
             from pjrpc.server.integration import aiohttp as integ
-            self.app = integ.Application(root, status_by_error=self.status, max_batch_size=3)
+            from aiohttp import web as _web0
+            self.audit = []
+
+            @_web0.middleware
+            async def audit(request, handler):
+                self.audit.append(len(await request.read()))       # the hosting application reads the body first (it is cached)
+                return await handler(request)
+            host = _web0.Application(middlewares=[audit] if status_kind in AUDITED else [])
+            self.app = integ.Application(root, app=host, status_by_error=self.status, max_batch_size=3)
             self.app.dispatcher.add_methods(world.build_registry(self.log, True))
             self.app.dispatcher.add(self._which('root', True), 'which')
             d2 = self.app.add_endpoint('/sub', max_batch_size=3)
@@ -136,6 +152,11 @@ class App:
             d3.add(self._which('last', False), 'which')
             self.paths['added'] = (root.rstrip('/') + '/sub')
             self.flask_app = flask.Flask('vmon_c18')
+            self.audit = []
+            if status_kind in AUDITED:
+                @self.flask_app.before_request
+                def audit():
+                    self.audit.append(len(flask.request.get_data()))       # the hosting application reads the body first (it is cached)
             self.rpc.init_app(self.flask_app)
             self.client = self.flask_app.test_client()
         else:
@@ -325,6 +346,10 @@ def run_post(ctx, root, status_kind, path_key, media_type, body_hex, family):
         want = want_status(status_kind if integration != 'werkzeug' else 'default', twin_codes)
         if want != 200:
             ctx.hit('status:non-200')
+            if status_kind == 'unassigned':
+                ctx.hit('status:without-a-registered-reason-phrase')
+        if status_kind in AUDITED and getattr(app, 'audit', None):
+            ctx.hit('host-application-read-the-body-first')
         try:
             doc = strictjson.decode(rbody.decode('utf-8'))
         except Exception:
@@ -420,11 +445,13 @@ def gen(ctx):
             yield 'post', dict(root=('/rpc', '/api')[k % 2], status_kind=('default', 'table')[k % 2],
                                path_key=('root', 'added', 'added-sub', 'added-bp')[k % 4], media_type=mt, body_hex=b.hex(), family='declared-charset')
     for root in ('/rpc', '/api', '/api/v1/'):
-        for status_kind in ('default', 'any-error-400', 'table', 'all-errors-400'):
+        for status_kind in ('default', 'any-error-400', 'table', 'all-errors-400', 'unassigned'):
             for fam, b in bs:
                 for mt in MEDIA:
                     k += 1
                     cls_, _ = media_class(mt)
+                    if status_kind == 'unassigned' and k % 3:
+                        continue
                     if not full:
                         # quick: every body with two documented forms, one refused form, rotating the rest
                         pick = k % 2 == 0 or cls_.startswith('documented') or fam == 'non-utf8'
